@@ -80,35 +80,36 @@ theorem minRRSetTTL_mem (l : List Nat) (h : l ≠ []) : minRRSetTTL l ∈ l := b
     · rw [h]; exact List.mem_cons_self
     · exact List.mem_cons_of_mem _ h
 
-theorem leaseDeadline_nil (obs : Int) (ns : Nat) : leaseDeadline obs ns [] = obs + (ns : Int) * sec := rfl
-
-theorem leaseDeadline_cons (obs : Int) (ns x : Nat) (rest : List Nat) :
-    leaseDeadline obs ns (x :: rest) =
-      if obs + (minRRSetTTL (x :: rest) : Int) * sec < obs + (ns : Int) * sec
-      then obs + (minRRSetTTL (x :: rest) : Int) * sec else obs + (ns : Int) * sec := rfl
-
-/-- the lease of a referral: at most `obs + NS TTL`, at most `obs + t` for every
-retained DS TTL `t`, and equal to one of the two candidates -/
-theorem leaseDeadline_spec (obs : Int) (ns : Nat) (ds : List Nat) :
-    leaseDeadline obs ns ds ≤ obs + (ns : Int) * sec ∧
-    (∀ t ∈ ds, leaseDeadline obs ns ds ≤ obs + (t : Int) * sec) ∧
-    (leaseDeadline obs ns ds = obs + (ns : Int) * sec ∨
-      (ds ≠ [] ∧ leaseDeadline obs ns ds = obs + (minRRSetTTL ds : Int) * sec)) := by
+/-- the lease of a referral: at most `obs + NS TTL`, at most `obs + M` (the
+ceiling from the observation), at most `obs + t` for every retained DS TTL `t`,
+and equal to one of the three candidates -/
+theorem leaseDeadline_spec (M obs : Int) (ns : Nat) (ds : List Nat) :
+    leaseDeadline M obs ns ds ≤ obs + (ns : Int) * sec ∧
+    leaseDeadline M obs ns ds ≤ obs + M ∧
+    (∀ t ∈ ds, leaseDeadline M obs ns ds ≤ obs + (t : Int) * sec) ∧
+    (leaseDeadline M obs ns ds = obs + (ns : Int) * sec ∨ leaseDeadline M obs ns ds = obs + M ∨
+      (ds ≠ [] ∧ leaseDeadline M obs ns ds = obs + (minRRSetTTL ds : Int) * sec)) := by
   have hsec : (0 : Int) < sec := by decide
+  unfold leaseDeadline
+  generalize hl0 : obs + (ns : Int) * sec = l0
+  simp only
+  generalize hl : (if obs + M < l0 then obs + M else l0) = l
+  have hl1 : l ≤ l0 ∧ l ≤ obs + M ∧ (l = l0 ∨ l = obs + M) := by
+    subst hl; split <;> omega
   cases ds with
-  | nil => exact ⟨Int.le_refl _, (by intro t h; cases h), Or.inl rfl⟩
+  | nil => simp only [List.isEmpty_nil, if_true]; exact ⟨hl1.1, hl1.2.1, (by intro t h; cases h), by rcases hl1.2.2 with h | h <;> simp [h]⟩
   | cons x rest =>
-    rw [leaseDeadline_cons]
+    simp only [List.isEmpty_cons, Bool.false_eq_true, if_false]
     have hmin : ∀ t ∈ x :: rest, (minRRSetTTL (x :: rest) : Int) * sec ≤ (t : Int) * sec := by
       intro t ht
       have := minRRSetTTL_le (x :: rest) t ht
       exact Int.mul_le_mul_of_nonneg_right (by omega) (by omega)
-    by_cases h : obs + (minRRSetTTL (x :: rest) : Int) * sec < obs + (ns : Int) * sec
+    by_cases h : obs + (minRRSetTTL (x :: rest) : Int) * sec < l
     · rw [if_pos h]
-      refine ⟨by omega, ?_, Or.inr ⟨List.cons_ne_nil _ _, rfl⟩⟩
+      refine ⟨by omega, by omega, ?_, Or.inr (Or.inr ⟨List.cons_ne_nil _ _, rfl⟩)⟩
       intro t ht; have := hmin t ht; omega
     · rw [if_neg h]
-      refine ⟨Int.le_refl _, ?_, Or.inl rfl⟩
+      refine ⟨hl1.1, hl1.2.1, ?_, by rcases hl1.2.2 with h' | h' <;> simp [h']⟩
       intro t ht; have := hmin t ht; omega
 
 /-! ### BoundCutFor -/
@@ -159,9 +160,10 @@ theorem clampUntil_none (M now d : Int) : clampUntil M now (some d) = none ↔ d
 
 /-! ### the invariant of the event system -/
 
-/-- the stored expiry of a delegation a descent went through is its folded
-deadline, unless the ceiling (12 h from its observation) cut it shorter -/
-def ElemOK (M : Int) (p : PathElem) : Prop := p.deadline ≤ p.stored ∨ p.obs + M ≤ p.stored
+/-- the expiry stored for a delegation a descent went through is not earlier than
+the deadline it contributed to the cut (the lease is already within the ceiling
+when `SetUntil` sees it, so the cache never lowers it) -/
+def ElemOK (_M : Int) (p : PathElem) : Prop := p.deadline ≤ p.stored
 
 structure Inv (M : Int) (s : Sys) : Prop where
   delegs : ∀ e ∈ s.delegs, e.observedAt ≤ s.now ∧ e.expiresAt ≤ e.observedAt + e.grant ∧
@@ -246,7 +248,7 @@ theorem seed_spec (M : Int) (s : Sys) (hinv : Inv M s) (m : Meta) (q : Name) :
     obtain ⟨c, hc, hcx, _, _⟩ := boundCutFor_some m e.expiresAt 0
     intro p hp
     rcases List.mem_cons.mp hp with rfl | hp
-    · exact ⟨⟨e.expiresAt, rfl, Int.le_refl _⟩, Or.inl (Int.le_refl _), hobs, ⟨c, hc, hcx⟩⟩
+    · exact ⟨⟨e.expiresAt, rfl, Int.le_refl _⟩, (show ElemOK M _ from Int.le_refl _), hobs, ⟨c, hc, hcx⟩⟩
     · obtain ⟨h1, h2, h3⟩ := hpath p hp
       exact ⟨⟨e.expiresAt, rfl, h1⟩, h2, by omega, ⟨c, hc, by omega⟩⟩
 
@@ -311,7 +313,7 @@ theorem inv_step (M : Int) (s : Sys) (ev : Ev) (hinv : Inv M s) : Inv M (step M 
         have hr : r ∈ s.stack := by rw [hst]; exact List.mem_cons_self
         have hrest : ∀ r' ∈ rest, r' ∈ s.stack := by intro r' h; rw [hst]; exact List.mem_cons_of_mem _ h
         obtain ⟨cd, hcd, hcdl, hcdc, _⟩ :=
-          minCut_some_right r.cut 0 0 (leaseDeadline s.now (minRRSetTTL nsTTLs) dsTTLs)
+          minCut_some_right r.cut 0 0 (leaseDeadline M s.now (minRRSetTTL nsTTLs) dsTTLs)
         rw [hcd]
         simp only
         -- the cut folded into the request tree's meta
@@ -340,12 +342,12 @@ theorem inv_step (M : Int) (s : Sys) (ev : Ev) (hinv : Inv M s) : Inv M (step M 
           · simp only at hp ⊢
             rw [hc2]
             rcases List.mem_cons.mp hp with rfl | hp
-            · exact ⟨⟨c2, rfl, hc2e⟩, Or.inl (Int.le_refl _), heobs, ⟨m2, hm2, by simp only [elemOf]; omega⟩⟩
+            · exact ⟨⟨c2, rfl, hc2e⟩, (show ElemOK M _ from Int.le_refl _), heobs, ⟨m2, hm2, by simp only [elemOf]; omega⟩⟩
             · rcases List.mem_append.mp hp with hp | hp
               · obtain ⟨h1, h2, h3⟩ := hepath p hp
                 exact ⟨⟨c2, rfl, by omega⟩, h2, by omega, ⟨m2, hm2, by omega⟩⟩
               · rcases List.mem_cons.mp hp with rfl | hp
-                · exact ⟨⟨c2, rfl, hc2cd'⟩, Or.inl (Int.le_refl _), Int.le_refl _, ⟨m2, hm2, by simp only; omega⟩⟩
+                · exact ⟨⟨c2, rfl, hc2cd'⟩, (show ElemOK M _ from Int.le_refl _), Int.le_refl _, ⟨m2, hm2, by simp only; omega⟩⟩
                 · obtain ⟨_, h2, h3, _⟩ := hinv.stack r hr p hp
                   have := hpathcd p hp
                   exact ⟨⟨c2, rfl, by omega⟩, h2, h3, ⟨m2, hm2, by omega⟩⟩
@@ -371,7 +373,8 @@ theorem inv_step (M : Int) (s : Sys) (ev : Ev) (hinv : Inv M s) : Inv M (step M 
               · simp only at hp ⊢
                 rcases List.mem_cons.mp hp with rfl | hp
                 · refine ⟨⟨cd, rfl, Int.le_refl _⟩, ?_, Int.le_refl _, ⟨m1, hm1, hm1cd⟩⟩
-                  unfold ElemOK; simp only
+                  have hlm := (leaseDeadline_spec M s.now (minRRSetTTL nsTTLs) dsTTLs).2.1
+                  show cd ≤ v
                   rcases hvor with h | h <;> omega
                 · obtain ⟨_, h2, h3, _⟩ := hinv.stack r hr p hp
                   have := hpathcd p hp
@@ -385,7 +388,7 @@ theorem inv_step (M : Int) (s : Sys) (ev : Ev) (hinv : Inv M s) : Inv M (step M 
             rcases List.mem_cons.mp hr' with rfl | hr'
             · simp only at hp ⊢
               rcases List.mem_cons.mp hp with rfl | hp
-              · exact ⟨⟨cd, rfl, Int.le_refl _⟩, Or.inl (Int.le_refl _), Int.le_refl _, ⟨m1, hm1, hm1cd⟩⟩
+              · exact ⟨⟨cd, rfl, Int.le_refl _⟩, (show ElemOK M _ from Int.le_refl _), Int.le_refl _, ⟨m1, hm1, hm1cd⟩⟩
               · obtain ⟨_, h2, h3, _⟩ := hinv.stack r hr p hp
                 have := hpathcd p hp
                 exact ⟨⟨cd, rfl, this⟩, h2, h3, ⟨m1, hm1, by omega⟩⟩
